@@ -46,6 +46,9 @@ ML = ref.ML
 SA = "sparseSpACE.spatiallyAdaptiveSingleDimension2:SpatiallyAdaptiveSingleDimensions2.performSpatiallyAdaptiv"
 
 
+STATS = {"surplus": 0.0, "matrix": 0.0}      # largest tolerated deviations seen (reported as a note: margin to the tolerances)
+
+
 def probe_points(d, seed, n=14):
     import numpy as np
     rs = np.random.RandomState(seed % (2 ** 32))
@@ -163,6 +166,8 @@ def case_history(ctx, case):
                 bad.append((lv, "missing"))
             elif lv not in tainted and not (a0.shape == a1.shape and close(a0, a1, rel=1e-9, abs_=1e-9)):
                 bad.append((lv, float(np.max(np.abs(a0 - a1))) if a0.shape == a1.shape else "shape"))
+            elif lv not in tainted and a0.size:
+                STATS["surplus"] = max(STATS["surplus"], float(np.max(np.abs(a0 - a1) / (1.0 + np.maximum(np.abs(a0), np.abs(a1))))))
         ctx.check("B.reuse.surpluses", not bad, DE + "solve_density_estimation_dimension_wise", size_tag, "round %d: surpluses differ on %s" % (rnd, bad[:3]))
         if rnd not in bad_round:
             if "dens" in s0 and "dens" in s1:
@@ -182,6 +187,8 @@ def case_history(ctx, case):
                 R0 = np.asarray(op0.build_R_matrix_dimension_wise(stripes, levels), dtype=float)
                 R1 = np.asarray(op1.build_R_matrix_dimension_wise(stripes, levels), dtype=float)
             tol = 1e-9 * float(np.max(np.abs(R0))) if R0.size else 0.0
+            if R0.shape == R1.shape and R0.size:
+                STATS["matrix"] = max(STATS["matrix"], float(np.max(np.abs(R0 - R1)) / np.max(np.abs(R0))))
             ctx.check("B.reuse.matrix", R0.shape == R1.shape and bool(np.all(np.abs(R0 - R1) <= tol)), DE + "build_R_matrix_dimension_wise",
                       size_tag, "warm-cache matrix differs from cold one: max %.3e" % (np.max(np.abs(R0 - R1)) if R0.shape == R1.shape else float("nan")))
 
@@ -409,6 +416,8 @@ def run(ctx):
         case_size_tree(ctx, case)
     tsec["size_tree"] = time.time() - t0
     ctx.note("section seconds: %s" % {k: round(v, 1) for k, v in tsec.items()})
+    ctx.note("largest accepted reuse on/off deviation: surpluses %.2e (tolerance 1e-9), matrix %.2e of the largest entry (tolerance 1e-9)"
+             % (STATS["surplus"], STATS["matrix"]))
 
 
 @ref.single_thread
